@@ -37,6 +37,10 @@ def main():
         res["error"] = "worktree: " + out
         return finish(res, mdir, wt)
     patch = os.path.join(mdir, "patch.diff")
+    if os.path.exists(os.path.join(mdir, "patch_head.diff")):
+        # the agent's patch conflicts with a later fix: commit; this is my port of the same edit to the current tree
+        patch = os.path.join(mdir, "patch_head.diff")
+        res["ported"] = "patch.diff was written against an older tree; patch_head.diff is the same edit ported to the current /repo HEAD"
     rc, out = sh(f"git apply {patch}", wt)
     if rc != 0:
         rc, out = sh(f"git apply --3way {patch}", wt)
